@@ -440,66 +440,109 @@ func dirTables(c *an.Ctx, r *runnerRoles, cc *ssa.Function, rule string) {
 		want        string
 	}{{"dir set", true, true, "dir"}, {"dir set, no context dir", true, false, "dir"}, {"dir empty, context dir set", false, true, "ctx"}, {"both empty", false, false, ""}} {
 		row := row
-		ex := &an.Explorer{P: p, NoReturn: noReturn}
-		ex.Atom = func(v ssa.Value) (an.AVal, bool) {
-			if neq, ok := isEmptyTest(v, isDirParam); ok {
+		ex := &an.Explorer{P: p, NoReturn: noReturn, MaxDepth: 2,
+			Inline: func(g *ssa.Function) bool { return an.Outer(g).Pkg == cc.Pkg && g != cc && an.Short(g) != "pkg/utils.RenderString" }}
+		var curSt *an.State
+		rootIs := func(of func(ssa.Value) bool) func(ssa.Value) bool {
+			return func(v ssa.Value) bool {
+				if of(v) {
+					return true
+				}
+				if curSt != nil {
+					r := curSt.Root(v)
+					if of(r) {
+						return true
+					}
+					// a field of a bound parameter: executionCtx.Dir read inside a helper
+					ap := an.AccessPath(v)
+					if len(ap.Fields) == 1 && ap.Fields[0] == "Dir" && ctxParam != nil && curSt.SameRoot(ap.Base, ctxParam) {
+						return of == nil
+					}
+				}
+				return false
+			}
+		}
+		_ = rootIs
+		ex.AtomSt = func(v ssa.Value, st *an.State) (an.AVal, bool) {
+			isDirP := func(x ssa.Value) bool { return st.SameRoot(x, dp) }
+			isCtxD := func(x ssa.Value) bool {
+				ap := an.AccessPath(x)
+				return ctxParam != nil && ap.LastField() == "Dir" && len(ap.Fields) == 1 && st.SameRoot(ap.Base, ctxParam)
+			}
+			if neq, ok := isEmptyTest(v, isDirP); ok {
 				return an.ABool(neq == row.dirSet), true
 			}
-			if neq, ok := isEmptyTest(v, isCtxDir); ok {
+			if neq, ok := isEmptyTest(v, isCtxD); ok {
 				return an.ABool(neq == row.ctx), true
 			}
 			return an.AVal{}, false
 		}
-		ex.Effect = func(in ssa.Instruction, st *an.State) string {
-			sto, ok := in.(*ssa.Store)
-			if !ok {
-				return ""
-			}
-			ap := an.AccessPath(sto.Addr)
-			if ap.LastField() != "Dir" || !an.TypeIs(ap.Base.Type(), "pkg/executor", "Job") {
-				return ""
-			}
+		classify := func(v ssa.Value, st *an.State) string {
+			root := st.Root(v)
+			rap := an.AccessPath(root)
 			switch {
-			case isDirParam(sto.Val):
-				return "Job.Dir:=dir"
-			case isCtxDir(sto.Val):
-				return "Job.Dir:=ctx"
+			case isDirParam(v) || st.SameRoot(v, dp):
+				return "dir"
+			case isCtxDir(v) || (ctxParam != nil && rap.LastField() == "Dir" && len(rap.Fields) == 1 && st.SameRoot(rap.Base, ctxParam)):
+				return "ctx"
 			}
-			for _, src := range an.Sources(sto.Val) {
-				if e, ok := src.(*ssa.Extract); ok {
-					if call, ok := e.Tuple.(*ssa.Call); ok {
-						if _, ok := an.IsCallTo(call, "pkg/utils.RenderString"); ok {
-							return "Job.Dir:=render"
+			if k, ok := an.ConstString(root); ok && k == "" {
+				return "empty"
+			}
+			return "other:" + an.Prov(root)
+		}
+		isJobDir := func(addr ssa.Value) bool {
+			ap := an.AccessPath(addr)
+			return ap.LastField() == "Dir" && an.TypeIs(ap.Base.Type(), "pkg/executor", "Job")
+		}
+		ex.Effect = func(in ssa.Instruction, st *an.State) string {
+			switch x := in.(type) {
+			case *ssa.Store:
+				if !isJobDir(x.Addr) {
+					return ""
+				}
+				for _, src := range an.Sources(x.Val) {
+					if e, ok := src.(*ssa.Extract); ok {
+						if call, ok := e.Tuple.(*ssa.Call); ok {
+							if _, ok := an.IsCallTo(call, "pkg/utils.RenderString"); ok {
+								return "stored-render"
+							}
 						}
 					}
 				}
+				return "set:" + classify(x.Val, st)
+			case *ssa.Call:
+				if cc, ok := an.IsCallTo(x, "pkg/utils.RenderString"); ok {
+					if u, ok := an.Resolve(cc.Args[0]).(*ssa.UnOp); ok && isJobDir(u.X) {
+						return "render(field)"
+					}
+					return "render:" + classify(cc.Args[0], st)
+				}
 			}
-			return "Job.Dir:=" + an.Prov(sto.Val)
+			return ""
 		}
 		outs := ex.Run(cc, cc.Blocks[0], nil, nil)
 		bad := ""
 		var cells []string
 		for _, o := range outs {
-			var eff []string
+			cells = append(cells, strings.Join(o.Effects, ","))
+			chosen, rendered := "empty", false
 			for _, e := range o.Effects {
-				if strings.HasPrefix(e, "Job.Dir:=") {
-					eff = append(eff, strings.TrimPrefix(e, "Job.Dir:="))
-				}
-			}
-			cells = append(cells, strings.Join(eff, ","))
-			// last non-render assignment decides; render must come after it
-			chosen := ""
-			rendered := false
-			for _, e := range eff {
-				if e == "render" {
+				switch {
+				case strings.HasPrefix(e, "set:"):
+					chosen, rendered = strings.TrimPrefix(e, "set:"), false
+				case strings.HasPrefix(e, "render:"):
+					chosen = strings.TrimPrefix(e, "render:")
+				case e == "stored-render":
 					rendered = true
-				} else {
-					chosen = e
-					rendered = false
 				}
 			}
-			if chosen != row.want {
-				bad = fmt.Sprintf("job dir comes from %q, want %q", chosen, row.want)
+			want := row.want
+			if want == "" {
+				want = "empty"
+			}
+			if chosen != want {
+				bad = fmt.Sprintf("job dir comes from %q, want %q", chosen, want)
 			}
 			if o.End == "return" && o.Ret[len(o.Ret)-1].K != an.ANonNil && !rendered {
 				bad = "the job dir is not rendered as a template after it is chosen"
